@@ -12,6 +12,9 @@ declare -A CH=(
  [cf_name_prefix_other]="C19"
  [config_calls_tuple_kwargs]="C07,C05,C18"
  [fx_clear_stack_after]="C20"
+ [gross_blocks_correct]="C03,C01,C02,C15,C16,C17"
+ [spike_pooled_scratch_correct]="C09,C01,C02,C17"
+ [mapdates_memo_correct]="C15,C10,C11,C12,C01"
 )
 for name in "${!CH[@]}"; do
   /venv/bin/python tools/eval_seed.py benign/$name BENIGN --checks ${CH[$name]} $1
